@@ -643,10 +643,8 @@ fn analyze_inner(view: &View, cfg: &Cfg, script: &Script, quirks: Quirks, a: &mu
     let key = provider_key(script, &date, &cfg.region, &cfg.service).unwrap();
 
     // ---- 14. signature
-    let Some(presented) = ascii_string(&signature_b) else {
-        return rej(Stage::Signature, Kind::SignatureDoesNotMatch, Discr::Has("does not match the signature you provided"));
-    };
-    a.presented_sig = Some(presented.clone());
+    let presented_ascii = ascii_string(&signature_b);
+    a.presented_sig = Some(presented_ascii.clone().unwrap_or_else(|| signature_b.iter().map(|b| *b as char).collect()));
     let scope = format!("{}/{}/{}/aws4_request", date, cfg.region, cfg.service);
     let creq = super::canonical_request(
         &view.method,
@@ -661,6 +659,9 @@ fn analyze_inner(view: &View, cfg: &Cfg, script: &Script, quirks: Quirks, a: &mu
     a.creq = Some(creq);
     a.sts = Some(sts);
     a.expected_sig = Some(expected.clone());
+    let Some(presented) = presented_ascii else {
+        return rej(Stage::Signature, Kind::SignatureDoesNotMatch, Discr::Has("does not match the signature you provided"));
+    };
     if presented != expected {
         if presented.eq_ignore_ascii_case(&expected) {
             return dc(Stage::Signature, "signature hex in upper case");
